@@ -220,13 +220,17 @@ def execute(ctx, case):
     if not 0 < cut < len(lines) or list(case["phase"]) != [0] * cut + [1] * (len(lines) - cut):
         return None
     st = {}; cn = {}; dm = {}
-    status0, _ = reference(arrivals[:cut], "create_unique", force, fmt, st, cn, dm)
-    cfg0 = dbside.Cfg(idspec=cfg.idspec, strategy="create_unique", disG=True, disT=True)
+    # the preparatory import uses create_unique, or - "phase0": "merge" - the merge strategy itself, so that the update
+    # meets a database whose duplicates table already has entries written by an earlier importer object
+    p0 = case.get("phase0", "create_unique")
+    status0, _ = reference(arrivals[:cut], p0, force, fmt, st, cn, dm)
+    cfg0 = dbside.Cfg(idspec=cfg.idspec, strategy=p0, force=force if p0 == "merge" else [], disG=True, disT=True)
     path = dbside.write_lines(os.path.join(ctx.scratch, "c05a." + ext), lines[:cut])
     db, rep0 = dbside.py_create(path, cfg0)
     if status0 != "ok" or db is None:
         return None
-    dm = {}       # the duplicates table only records what the 'merge' strategy files
+    if p0 != "merge":
+        dm = {}       # the duplicates table only records what the 'merge' strategy files
     status, want = reference(arrivals[cut:], strategy, force, fmt, st, cn, dm)
     path2 = dbside.write_lines(os.path.join(ctx.scratch, "c05b." + ext), lines[cut:])
     try:
@@ -301,6 +305,9 @@ def run(ctx):
         else:
             cut = r.randrange(1, len(arrivals))
             case = mk_case(lines, arrivals, cfg, fmt, phase=[0] * cut + [1] * (len(arrivals) - cut))
+            if strategy == "merge" and r.random() < 0.5:
+                case["phase0"] = "merge"
+                res.count("update_after_merge_import")
         ex = execute(ctx, case)
         if ex is None:
             continue
